@@ -7,6 +7,10 @@ about bound enforcement (clamps, SO(2) wrap, SO(3) normalisation).  `[EX]`: exac
 namespace OmplModel.SpaceBounds
 open OmplModel
 
+-- `Num.instOfNat` (numerals through `Num.ofNat`) would hijack the literals of ℝ in this file; the model
+-- writes `Num.ofNat k` explicitly, so the instance is switched off here.
+attribute [-instance] Num.instOfNat
+
 /-- C `trunc` -/
 noncomputable def truncR (y : ℝ) : ℝ := if 0 ≤ y then (⌊y⌋ : ℝ) else (⌈y⌉ : ℝ)
 /-- C `fmod` over ℝ: `x - m * trunc(x / m)` -/
@@ -37,11 +41,28 @@ noncomputable instance instNumReal : Num ℝ where
   toInt x := if 0 ≤ x then ⌊x⌋ else ⌈x⌉
   ofInt i := (i : ℝ)
 
+/-! ### accessors -/
+section acc
+variable {α : Type} [Num α]
+@[simp] theorem vals_rv (xs : List α) : St.vals (.rv xs : OmplModel.St α) = xs := rfl
+@[simp] theorem ang_so2 (v : α) : St.ang (.so2 v : OmplModel.St α) = v := rfl
+@[simp] theorem qx_so3 (x y z w : α) : St.qx (.so3 x y z w : OmplModel.St α) = x := rfl
+@[simp] theorem qy_so3 (x y z w : α) : St.qy (.so3 x y z w : OmplModel.St α) = y := rfl
+@[simp] theorem qz_so3 (x y z w : α) : St.qz (.so3 x y z w : OmplModel.St α) = z := rfl
+@[simp] theorem qw_so3 (x y z w : α) : St.qw (.so3 x y z w : OmplModel.St α) = w := rfl
+@[simp] theorem tm_time (t : α) : St.tm (.time t : OmplModel.St α) = t := rfl
+@[simp] theorem dv_disc (v : Int) : St.dv (.disc v : OmplModel.St α) = v := rfl
+@[simp] theorem hd_ccons (a b : OmplModel.St α) : St.hd (.ccons a b) = a := rfl
+@[simp] theorem tl_ccons (a b : OmplModel.St α) : St.tl (.ccons a b) = b := rfl
+@[simp] theorem hd_pair (a b : OmplModel.St α) : St.hd (pair a b) = a := rfl
+@[simp] theorem hd_tl_pair (a b : OmplModel.St α) : St.hd (St.tl (pair a b)) = b := rfl
+end acc
+
 /-! ### constants -/
 theorem eps_val : (eps : ℝ) = 1 / 4503599627370496 := by simp [eps, Num.ofNat]
 theorem eps_pos : (0 : ℝ) < eps := by rw [eps_val]; norm_num
 theorem qErr_val : (qErr : ℝ) = 1 / 1000000000 := by simp [qErr, Num.ofDec]; norm_num
-theorem so3Eps_val : (so3Eps : ℝ) = 2107342 / 100000000000000 := by simp [so3Eps, Num.ofDec]
+theorem so3Eps_val : (so3Eps : ℝ) = 2107342 / 100000000000000 := by simp [so3Eps, Num.ofDec]; norm_num
 theorem so3Tiny_val : (so3Tiny : ℝ) = 1 / 1000000 := by simp [so3Tiny, Num.ofDec]; norm_num
 theorem twoPi_val : (twoPi : ℝ) = 2 * Real.pi := by simp [twoPi, Num.ofNat, Num.pi]
 theorem pi_val : (Num.pi : ℝ) = Real.pi := rfl
@@ -52,7 +73,7 @@ theorem truncR_abs_le (y : ℝ) : |truncR y| ≤ |y| := by
   split_ifs with h
   · rw [abs_of_nonneg h, abs_of_nonneg (by exact_mod_cast Int.floor_nonneg.mpr h)]
     exact Int.floor_le y
-  · push_neg at h
+  · push Not at h
     have h1 : (⌈y⌉ : ℝ) ≤ 0 := by exact_mod_cast Int.ceil_le.mpr (by simpa using h.le)
     rw [abs_of_neg h, abs_of_nonpos h1]
     linarith [Int.le_ceil y]
@@ -89,7 +110,7 @@ theorem fmodR_small {x m : ℝ} (hm : 0 < m) (hx : |x| < m) : fmodR x m = x := b
     split_ifs with h
     · have : ⌊x / m⌋ = 0 := Int.floor_eq_iff.mpr ⟨by simpa using h, by simpa using hy.2⟩
       simp [this]
-    · have : ⌈x / m⌉ = 0 := Int.ceil_eq_iff.mpr ⟨by simpa using hy.1, by push_neg at h; simpa using h.le⟩
+    · have : ⌈x / m⌉ = 0 := Int.ceil_eq_iff.mpr ⟨by simpa using hy.1, by push Not at h; simpa using h.le⟩
       simp [this]
   rw [ht]; ring
 
@@ -118,7 +139,7 @@ theorem timeSat_iff (l h x : ℝ) : timeSat l h x = true ↔ l - eps ≤ x ∧ x
   unfold timeSat; simp
 
 /-- enforcing moves an in-bounds coordinate by at most `eps` (the slack of `satisfiesBounds`) -/
-theorem clampHL_close {l h x : ℝ} (hlh : l ≤ h) (hs : l - eps ≤ x ∧ x ≤ h + eps) :
+theorem clampHL_close {l h x : ℝ} (_hlh : l ≤ h) (hs : l - eps ≤ x ∧ x ≤ h + eps) :
     |clampHL l h x - x| ≤ eps := by
   unfold clampHL
   have := eps_pos
@@ -134,8 +155,8 @@ def rvOk : List ℝ → List ℝ → Prop
   | _, _ => True
 
 theorem rvEnforce_sat : ∀ (lo hi xs : List ℝ), rvOk lo hi → rvSat lo hi (rvEnforce lo hi xs) = true
-  | [], _, xs, _ => by simp [rvEnforce, rvSat]
-  | _ :: _, [], xs, _ => by simp [rvEnforce, rvSat]
+  | [], _, xs, _ => by simp [rvSat]
+  | _ :: _, [], xs, _ => by simp [rvSat]
   | _ :: _, _ :: _, [], _ => by simp [rvEnforce, rvSat]
   | l :: lo, h :: hi, x :: xs, hok => by
     simp only [rvEnforce, rvSat, Bool.and_eq_true]
@@ -169,21 +190,6 @@ theorem rvEnforce_close : ∀ (lo hi xs : List ℝ), rvOk lo hi → rvSat lo hi 
     simp only [rvSat, Bool.and_eq_true] at hs
     simp only [rvEnforce, listClose]
     exact ⟨clampHL_close hok.1 ((rvSat1_iff _ _ _).mp hs.1), rvEnforce_close lo hi xs hok.2 hs.2⟩
-
-/-- strictly inside `[lo, hi]` (no slack): enforcing is the identity -/
-theorem rvEnforce_noop_strict : ∀ (lo hi xs : List ℝ),
-    (∀ i (h1 : i < lo.length) (h2 : i < hi.length) (h3 : i < xs.length), lo[i] ≤ xs[i] ∧ xs[i] ≤ hi[i]) →
-    rvEnforce lo hi xs = xs
-  | [], _, xs, _ => by simp [rvEnforce]
-  | _ :: _, [], xs, _ => by simp [rvEnforce]
-  | _ :: _, _ :: _, [], _ => by simp [rvEnforce]
-  | l :: lo, h :: hi, x :: xs, hin => by
-    simp only [rvEnforce]
-    have h0 := hin 0 (by simp) (by simp) (by simp)
-    simp only [List.getElem_cons_zero] at h0
-    rw [clampHL_of_mem h0.1 h0.2, rvEnforce_noop_strict lo hi xs]
-    intro i h1 h2 h3
-    simpa using hin (i + 1) (by simpa using h1) (by simpa using h2) (by simpa using h3)
 
 /-! ### SO(2) -/
 theorem so2Sat_iff (v : ℝ) : so2Sat v = true ↔ -Real.pi ≤ v ∧ v < Real.pi := by
@@ -275,12 +281,75 @@ theorem so3Enforce_sat (x y z w : ℝ) :
   · -- exact normalisation
     refine ⟨_, _, _, _, rfl, so3Sat_of_close ?_⟩
     rw [nrmSq_scale, ← hm]
-    push_neg at h2
+    push Not at h2
     have hmp : 0 < m := by linarith
     have hs : Real.sqrt m * Real.sqrt m = m := Real.mul_self_sqrt hm0
     have hsp : 0 < Real.sqrt m := Real.sqrt_pos.mpr hmp
     have : 1 / Real.sqrt m * (1 / Real.sqrt m) * m = 1 := by
       field_simp; linarith
     rw [this]; simp [eps_pos.le]
+
+/-! ### legal bound settings and closeness of states -/
+
+/-- the bound settings the property quantifies over: every low bound is at most its high bound
+(zero-width allowed; OMPL's own setters reject inverted bounds) -/
+def boundsOk : Space ℝ → Prop
+  | .rv lo hi => rvOk lo hi
+  | .time b lo hi => b = true → lo ≤ hi
+  | .disc lo hi => lo ≤ hi
+  | .ccons _ h t => boundsOk h ∧ boundsOk t
+  | .mobius imax _ => 0 ≤ imax
+  | .wrap s => boundsOk s
+  | _ => True
+
+/-- no SO(3) component anywhere -/
+def so3Free : Space ℝ → Prop
+  | .so3 => False
+  | .ccons _ h t => so3Free h ∧ so3Free t
+  | .wrap s => so3Free s
+  | _ => True
+
+/-- `a` equals `b` up to `tol` in every real coordinate; exactly in SO(2), discrete and structure;
+an SO(3) component is a positive multiple `k` of the other with `|k - 1| ≤ 2e-9` (same rotation) -/
+def stClose (tol : ℝ) : OmplModel.St ℝ → OmplModel.St ℝ → Prop
+  | .rv a, .rv b => listClose tol a b
+  | .so2 a, .so2 b => a = b
+  | .so3 x y z w, .so3 x' y' z' w' =>
+    ∃ k : ℝ, |k - 1| ≤ 2 / 1000000000 ∧ x = x' * k ∧ y = y' * k ∧ z = z' * k ∧ w = w' * k
+  | .time a, .time b => |a - b| ≤ tol
+  | .disc a, .disc b => a = b
+  | .cnil, .cnil => True
+  | .ccons a b, .ccons a' b' => stClose tol a a' ∧ stClose tol b b'
+  | _, _ => False
+
+/-- an in-bounds quaternion goes through the first-order branch and is rescaled by `k`, `|k-1| ≤ 2e-9` -/
+theorem so3Enforce_close {x y z w : ℝ} (h : so3Sat x y z w = true) :
+    ∃ k : ℝ, |k - 1| ≤ 2 / 1000000000 ∧ so3Enforce x y z w = .so3 (x * k) (y * k) (z * k) (w * k) := by
+  unfold so3Sat so3Norm at h
+  simp only [Num.abs, Num.ofNat, Nat.cast_one, Num.sqrt, qErr_val, decide_eq_true_eq] at h
+  set m := nrmSq x y z w with hm
+  have hm0 : 0 ≤ m := nrmSq_nonneg x y z w
+  have he := eps_val
+  -- |m - 1| < 2.1e-9
+  have hclose : |m - 1| < 21 / 10000000000 := by
+    split_ifs at h with h1
+    · have hs : Real.sqrt m * Real.sqrt m = m := Real.mul_self_sqrt hm0
+      have hs0 := Real.sqrt_nonneg m
+      rw [abs_lt] at h ⊢
+      constructor <;> nlinarith
+    · push Not at h1
+      rw [he] at h1
+      exact lt_of_le_of_lt h1 (by norm_num)
+  unfold so3Enforce
+  simp only [Num.abs, Num.ofNat, Nat.cast_one, Nat.cast_ofNat, so3Eps_val, ← hm]
+  rw [abs_lt] at hclose
+  have h1 : |1 - m| < 2107342 / 100000000000000 := by
+    rw [abs_lt]; constructor <;> linarith
+  rw [if_pos h1]
+  refine ⟨2 / (1 + m), ?_, rfl⟩
+  have hpos : 0 < 1 + m := by linarith
+  have : 2 / (1 + m) - 1 = (1 - m) / (1 + m) := by field_simp; ring
+  rw [this, abs_div, abs_of_pos hpos, div_le_iff₀ hpos, abs_le]
+  constructor <;> nlinarith
 
 end OmplModel.SpaceBounds
